@@ -1,5 +1,5 @@
 (** * C02Proofs: convergence of the rollout on the per-class abstraction; silence at the fixpoint. *)
-From Coq Require Import List ZArith NArith Bool Lia.
+From Coq Require Import List ZArith NArith Bool Lia Permutation.
 From EDS Require Import Model.Base Model.Objects Model.Fitness Model.PodSpec Model.Limits Model.Rolling Model.Abstract
      Proofs.Lists Proofs.RollingProofs.
 Import ListNotations.
@@ -174,3 +174,236 @@ Proof.
   replace (Z.min 0 max_fail) with 0 by lia.
   repeat split; try reflexivity; f_equal; f_equal; try lia; f_equal; lia.
 Qed.
+
+(** ** one whole sync on the class counts *)
+Definition b2z (b : bool) : Z := if b then 1 else 0.
+
+Lemma count_forall2 : forall rs now creates deletes g items items',
+  synced rs now creates deletes items items' ->
+  count_if (is_class g rs now) items' =
+  count_if (fun i => g (cls_after creates deletes (ni_name i) (classify rs now i))) items.
+Proof.
+  intros rs now creates deletes g items items' H. induction H as [|i i' l l' Hi Hl IH]; [reflexivity|].
+  rewrite !count_if_cons, IH. unfold is_class. rewrite Hi. reflexivity.
+Qed.
+
+Lemma count_linear : forall {A} (f a b c d : A -> bool) l,
+  (forall x, In x l -> b2z (f x) = b2z (a x) - b2z (b x) + b2z (c x) + b2z (d x)) ->
+  count_if f l = count_if a l - count_if b l + count_if c l + count_if d l.
+Proof.
+  intros A f a b c d l; induction l as [|x r IH]; intros H; [reflexivity|].
+  rewrite !count_if_cons. rewrite IH by (intros y Hy; apply H; right; assumption).
+  pose proof (H x (or_introl eq_refl)) as Hx. unfold b2z in Hx.
+  destruct (f x), (a x), (b x), (c x), (d x); lia.
+Qed.
+
+Lemma NoDup_map_filter : forall {A B} (h : A -> B) (f : A -> bool) l, NoDup (map h l) -> NoDup (map h (filter f l)).
+Proof.
+  intros A B h f l; induction l as [|x r IH]; intros H; [constructor|].
+  cbn in H. inversion H as [|y ys Hn Hr]; subst. cbn. destruct (f x); cbn; [|apply IH; assumption].
+  constructor; [|apply IH; assumption]. intros Hin. apply Hn.
+  apply in_map_iff in Hin. destruct Hin as [z [Hz Hf]]. apply filter_In in Hf. apply in_map_iff. exists z. tauto.
+Qed.
+
+(** members of a duplicate-free set of names, counted over the items *)
+Lemma count_names : forall (P : nitem -> bool) (S : list name) items,
+  NoDup (map ni_name items) -> NoDup S ->
+  count_if (fun i => P i && memN (ni_name i) S) items =
+  count_if (fun x => memN x (map ni_name (filter P items))) S.
+Proof.
+  intros P S items Hnd HS. unfold count_if. f_equal.
+  rewrite <- (map_length ni_name (filter (fun i => P i && memN (ni_name i) S) items)).
+  apply Permutation_length, NoDup_Permutation.
+  - apply NoDup_map_filter. assumption.
+  - apply NoDup_filter. assumption.
+  - intros x. rewrite in_map_iff, filter_In. split.
+    + intros [i [Hx Hi]]. apply filter_In in Hi. destruct Hi as [Hi Hp]. apply andb_true_iff in Hp. destruct Hp as [Hp Hm].
+      subst x. split; [apply memN_In; assumption|]. apply memN_In. apply in_map_iff. exists i. split; [reflexivity|].
+      apply filter_In. split; assumption.
+    + intros [Hx Hm]. apply memN_In in Hm. apply in_map_iff in Hm. destruct Hm as [i [Hn Hi]].
+      apply filter_In in Hi. destruct Hi as [Hi Hp]. exists i. split; [assumption|]. apply filter_In. split; [assumption|].
+      rewrite Hp. cbn. apply memN_In. subst x. assumption.
+Qed.
+
+Lemma unique_name : forall items i j, NoDup (map ni_name items) -> In i items -> In j items -> ni_name i = ni_name j -> i = j.
+Proof.
+  induction items as [|x r IH]; intros i j H Hi Hj He; [contradiction|].
+  cbn in H. inversion H as [|y ys Hn Hr]; subst.
+  destruct Hi as [->|Hi], Hj as [->|Hj]; try reflexivity.
+  - exfalso. apply Hn. rewrite He. apply in_map. assumption.
+  - exfalso. apply Hn. rewrite <- He. apply in_map. assumption.
+  - apply IH; assumption.
+Qed.
+
+Section SyncProjects.
+Variables (rs : ers) (ann : eds_annots) (ru : rolling) (now : time) (items items' : list nitem) (rp : rolling_plan).
+Variables (creates deletes : list name).
+Hypothesis Hnd : NoDup (map ni_name items).
+Hypothesis Hplan : rolling_plan_of rs ann ru now items = Ok rp.
+Hypothesis Hp : rp_paused rp = false.
+Hypothesis Hf : rp_frozen rp = false.
+Hypothesis Hu : count_if (is_class c_unresp rs now) items = 0.
+Hypothesis Hmf : 0 <= rp_max_sched_failure rp.
+Hypothesis Hac : admissible_creates rp creates = true.
+Hypothesis Had : admissible_deletes rp deletes = true.
+Hypothesis Hs : synced rs now creates deletes items items'.
+
+Let WF : plan_wf rp := rolling_plan_wf rs ann ru now items rp Hnd Hplan.
+
+Lemma plan_lists :
+  rp_create_candidates rp = map ni_name (filter (is_class c_nopod rs now) items) /\
+  rp_del_unavailable rp = map ni_name (filter (is_class c_oldunavail rs now) items) /\
+  rp_del_available rp = map ni_name (filter (is_class c_oldavail rs now) items).
+Proof.
+  clear Hs Had Hac Hmf Hu Hf Hp WF. unfold rolling_plan_of in Hplan.
+  destruct (ru_max_sched_failure ru) as [msf|]; [|discriminate].
+  destruct (resolve_iop msf (zlen items)) as [max_fail|]; [|discriminate].
+  destruct (ru_max_unavailable ru) as [mu|]; [|discriminate].
+  destruct (resolve_iop mu (zlen items)) as [max_unav|]; [|discriminate].
+  destruct (ru_increase ru) as [inc|]; [|discriminate].
+  destruct (resolve_iop inc (zlen items)); [|discriminate].
+  destruct (ru_interval ru) as [interval|]; [|discriminate].
+  destruct (ru_max_parallel ru) as [maxpar|]; [|discriminate].
+  destruct (max_creation inc interval maxpar (zlen items) _ now) as [maxc|]; [|discriminate].
+  injection Hplan as <-. cbn. auto.
+Qed.
+
+(** a name on the creation list belongs to an item without a pod; one on the deletion list to an outdated pod *)
+Lemma created_class : forall i, In i items -> memN (ni_name i) creates = true -> classify rs now i = NoPod.
+Proof.
+  intros i Hi Hm. destruct (adm_create_facts rp creates Hac) as [_ [Hincl _]].
+  apply memN_In in Hm. apply Hincl in Hm. destruct plan_lists as [E _]. rewrite E in Hm.
+  apply in_map_iff in Hm. destruct Hm as [j [Hn Hj]]. apply filter_In in Hj. destruct Hj as [Hj Hc].
+  assert (j = i) by (eapply unique_name; eassumption). subst j.
+  unfold is_class in Hc. destruct (classify rs now i); cbn in Hc; congruence.
+Qed.
+Lemma deleted_class : forall i, In i items -> memN (ni_name i) deletes = true ->
+  classify rs now i = OldAvailable \/ classify rs now i = OldUnavailable.
+Proof.
+  intros i Hi Hm. destruct (adm_facts rp deletes Had) as [_ [Hincl _]].
+  apply memN_In in Hm. apply Hincl in Hm. destruct plan_lists as [_ [E1 E2]]. rewrite E1, E2 in Hm.
+  apply in_app_or in Hm. destruct Hm as [Hm|Hm]; apply in_map_iff in Hm; destruct Hm as [j [Hn Hj]];
+    apply filter_In in Hj; destruct Hj as [Hj Hc];
+    assert (j = i) by (eapply unique_name; eassumption); subst j;
+    unfold is_class in Hc; destruct (classify rs now i); cbn in Hc; try congruence; auto.
+Qed.
+
+(** the count of a class after the sync *)
+Lemma class_after : forall g,
+  count_if (is_class g rs now) items' =
+  count_if (is_class g rs now) items
+  - count_if (fun i => g (classify rs now i) && (memN (ni_name i) creates || memN (ni_name i) deletes)) items
+  + (if g (UpToDate false) then zlen creates else 0) + (if g OldTerminating then zlen deletes else 0).
+Proof.
+  intros g. rewrite (count_forall2 rs now creates deletes g items items' Hs).
+  rewrite (count_linear _ (is_class g rs now)
+             (fun i => g (classify rs now i) && (memN (ni_name i) creates || memN (ni_name i) deletes))
+             (fun i => g (UpToDate false) && memN (ni_name i) creates)
+             (fun i => g OldTerminating && memN (ni_name i) deletes)).
+  - f_equal; [f_equal|].
+    + destruct (g (UpToDate false)); cbn [andb].
+      * destruct (adm_create_facts rp creates Hac) as [Hndc [Hincl _]]. destruct plan_lists as [E _].
+        transitivity (count_if (fun x => memN x creates) (map ni_name items)).
+        { unfold count_if. f_equal. clear. induction items as [|x r IH]; [reflexivity|]. cbn. destruct (memN (ni_name x) creates); cbn; rewrite IH; reflexivity. }
+        apply count_members; try assumption. intros x Hx. apply Hincl in Hx. rewrite E in Hx.
+        apply in_map_iff in Hx. destruct Hx as [j [Hn Hj]]. apply filter_In in Hj. apply in_map_iff. exists j. tauto.
+      * apply count_if_zero. reflexivity.
+    + destruct (g OldTerminating); cbn [andb].
+      * destruct (adm_facts rp deletes Had) as [Hndd [Hincl _]]. destruct plan_lists as [_ [E1 E2]].
+        transitivity (count_if (fun x => memN x deletes) (map ni_name items)).
+        { unfold count_if. f_equal. clear. induction items as [|x r IH]; [reflexivity|]. cbn. destruct (memN (ni_name x) deletes); cbn; rewrite IH; reflexivity. }
+        apply count_members; try assumption. intros x Hx. apply Hincl in Hx. rewrite E1, E2 in Hx.
+        apply in_app_or in Hx. destruct Hx as [Hx|Hx]; apply in_map_iff in Hx; destruct Hx as [j [Hn Hj]];
+          apply filter_In in Hj; apply in_map_iff; exists j; tauto.
+      * apply count_if_zero. reflexivity.
+  - intros i Hi. unfold cls_after, is_class.
+    destruct (memN (ni_name i) creates) eqn:Ec.
+    + rewrite (created_class i Hi Ec).
+      destruct (memN (ni_name i) deletes) eqn:Ed.
+      * destruct (deleted_class i Hi Ed) as [F|F]; rewrite (created_class i Hi Ec) in F; discriminate.
+      * unfold b2z. destruct (g (UpToDate false)), (g NoPod), (g OldTerminating); cbn; lia.
+    + destruct (memN (ni_name i) deletes) eqn:Ed.
+      * unfold b2z. destruct (g (UpToDate false)), (g (classify rs now i)), (g OldTerminating); cbn; lia.
+      * unfold b2z. destruct (g (UpToDate false)), (g (classify rs now i)), (g OldTerminating); cbn; lia.
+Qed.
+
+Lemma count_if_ext : forall {A} (f g : A -> bool) l, (forall x, In x l -> f x = g x) -> count_if f l = count_if g l.
+Proof.
+  intros A f g l; induction l as [|x r IH]; intros H; [reflexivity|].
+  rewrite !count_if_cons, (H x (or_introl eq_refl)), IH; [reflexivity|]. intros y Hy; apply H; right; assumption.
+Qed.
+
+Lemma filter_true_all : forall {A} (l : list A), filter (fun _ => true) l = l.
+Proof. induction l as [|x r IH]; cbn; [reflexivity | rewrite IH; reflexivity]. Qed.
+
+Lemma moved_none : forall g, g NoPod = false -> g OldAvailable = false -> g OldUnavailable = false ->
+  count_if (fun i => g (classify rs now i) && (memN (ni_name i) creates || memN (ni_name i) deletes)) items = 0.
+Proof.
+  intros g G1 G2 G3. apply count_if_zero. intros i Hi.
+  destruct (memN (ni_name i) creates) eqn:Ec; [rewrite (created_class i Hi Ec), G1; reflexivity|].
+  destruct (memN (ni_name i) deletes) eqn:Ed; [|apply andb_false_r].
+  destruct (deleted_class i Hi Ed) as [->| ->]; [rewrite G2 | rewrite G3]; reflexivity.
+Qed.
+
+Lemma moved_nopod :
+  count_if (fun i => c_nopod (classify rs now i) && (memN (ni_name i) creates || memN (ni_name i) deletes)) items = zlen creates.
+Proof.
+  rewrite (count_if_ext _ (fun i => is_class c_nopod rs now i && memN (ni_name i) creates)).
+  - rewrite count_names by (try assumption; exact (proj1 (adm_create_facts rp creates Hac))).
+    destruct plan_lists as [E _]. rewrite <- E.
+    destruct (adm_create_facts rp creates Hac) as [Hndc [Hincl _]].
+    rewrite (count_if_ext _ (fun _ => true)); [unfold count_if, zlen; rewrite filter_true_all; reflexivity|].
+    intros x Hx. apply memN_In. apply Hincl. assumption.
+  - intros i Hi. unfold is_class.
+    destruct (memN (ni_name i) creates) eqn:Ec; [rewrite (created_class i Hi Ec); reflexivity|].
+    destruct (memN (ni_name i) deletes) eqn:Ed; [|rewrite !andb_false_r; reflexivity].
+    destruct (deleted_class i Hi Ed) as [->| ->]; reflexivity.
+Qed.
+
+Lemma moved_oldavail :
+  count_if (fun i => c_oldavail (classify rs now i) && (memN (ni_name i) creates || memN (ni_name i) deletes)) items
+  = avail_chosen rp deletes.
+Proof.
+  rewrite (count_if_ext _ (fun i => is_class c_oldavail rs now i && memN (ni_name i) deletes)).
+  - rewrite count_names by (try assumption; exact (proj1 (adm_facts rp deletes Had))).
+    destruct plan_lists as [_ [_ E]]. rewrite <- E. reflexivity.
+  - intros i Hi. unfold is_class.
+    destruct (memN (ni_name i) creates) eqn:Ec; [rewrite (created_class i Hi Ec); reflexivity|]. reflexivity.
+Qed.
+
+Lemma moved_oldunavail :
+  count_if (fun i => c_oldunavail (classify rs now i) && (memN (ni_name i) creates || memN (ni_name i) deletes)) items
+  = zlen deletes - avail_chosen rp deletes.
+Proof.
+  rewrite (count_if_ext _ (fun i => is_class c_oldunavail rs now i && memN (ni_name i) deletes)).
+  - rewrite count_names by (try assumption; exact (proj1 (adm_facts rp deletes Had))).
+    destruct plan_lists as [_ [E _]]. rewrite <- E.
+    pose proof (chosen_split rp deletes WF Had) as Hsp. lia.
+  - intros i Hi. unfold is_class.
+    destruct (memN (ni_name i) creates) eqn:Ec; [rewrite (created_class i Hi Ec); reflexivity|]. reflexivity.
+Qed.
+
+(** One sync, on the class counts: the planning items after the calls of ANY admissible choice of the runtime were
+    applied abstract to [a_sync] of the abstraction of the items before. *)
+Theorem sync_projects :
+  abs_of rs now items' = a_sync (abs_of rs now items) (rp_max_creation rp) (rp_max_unavailable rp).
+Proof.
+  destruct (plan_projects rs ann ru now items rp Hplan Hp Hf Hu Hmf) as [Hn [Hc [Hd [Lc [Lu La]]]]].
+  destruct (adm_create_facts rp creates Hac) as [_ [_ Hlc]].
+  destruct (adm_facts rp deletes Had) as [_ [_ [Hld _]]].
+  pose proof (avail_chosen_value rp deletes WF Had) as Hav. rewrite Lu in Hav.
+  unfold a_sync. rewrite <- Hc, <- Hd, <- Hlc, <- Hld.
+  unfold abs_of at 1. rewrite !class_after.
+  rewrite moved_nopod, moved_oldavail, moved_oldunavail.
+  rewrite (moved_none c_ready), (moved_none c_up_notready), (moved_none c_oldterm) by reflexivity.
+  cbn [c_nopod c_ready c_up_notready c_oldavail c_oldunavail c_oldterm].
+  unfold abs_of. cbn [a_missing a_up_ready a_up_notready a_old_ready a_old_notready a_terminating].
+  unfold abs_of in Hav. cbn [a_old_notready] in Hav.
+  rewrite Hld in *.
+  f_equal; try lia.
+  - destruct (rp_nb_delete rp <=? count_if (is_class c_oldunavail rs now) items) eqn:E;
+      [apply Z.leb_le in E | apply Z.leb_gt in E]; lia.
+  - destruct (rp_nb_delete rp <=? count_if (is_class c_oldunavail rs now) items) eqn:E;
+      [apply Z.leb_le in E | apply Z.leb_gt in E]; lia.
+Qed.
+End SyncProjects.
